@@ -75,8 +75,19 @@ budget in `dual_rrt_connect`, caught by C12 clause g through the simulated clock
 (`Tool::forward_with_joint_poses` moving link 6 to the tool centre point, caught by the placement
 oracle of C10).
 
-Totals over the eight rounds: {det} of {tot} seeded changes are caught by the QUICK tier of their
-property's check{', ' + ', '.join(thor) + ' only by the thorough tier' if thor else ''}.
+Totals over the eight rounds (final matrix, every kept change against the final machinery, default
+seed): {det} of {tot} seeded changes are caught by the QUICK tier of their property's check. The
+four others: `r5-c13-m1` (quick at 2 of 4 seeds, thorough at the default seed: the collision has
+to be on a pair in the tail of the task list at a pool size that leaves a remainder), `c12-m2` (a
+rare event by its author's own account: thorough at 2 of 4 seeds, see below), `r7-c13-m1` (not
+caught: needs an obstacle thinner than a hundredth of a degree of joint motion, see its row),
+`r6-c11-m3` (not evaluable: it adds a private field to `KinematicsWithShape`, the harness no longer
+builds, exit 2; my port of its mechanism to a static is caught). Several changes that earlier
+matrices caught by luck at the default seed were made robust in the last session (`r2-c13-m1`,
+`r4-c11-m1`, `r4-c11-m3`, `r6-c18-m1`, `r8-c19-m3`): every time the simulator's stream layout
+changes, marginal detections move, which is why the matrix is re-run after every change of the
+machinery (in full after the last change of the shared parts; for C12 and C19, whose generators
+changed once more after round 8, their 63 entries were re-run).
 <!-- SEEDED-TABLES-END -->"""
 s=open('/verif/DESIGN.md').read()
 if '<!-- SEEDED-TABLES-BEGIN -->' in s:
